@@ -246,6 +246,15 @@ def refusal_family(pvl):
         M([("g", col.PVLGroup([("a", [1, [2, [3]]])])), ("k", [[1], [2]])]),
         M([("a", object)]) if False else M([("a", 1 + 2j)]),    # a type nobody writes
         M([("a", [1, 2]), ("b", [3.5, "x"])]),
+        # lines that have to be wrapped: plain ones, and ones that hold the
+        # characters Python takes for white space although the dialects do not
+        # (what an encoder prepares for its first wrapped line must still be
+        # right for a later one)
+        M([("t", "word " * 30), ("s", ["alpha beta"] * 12), ("q", Q(5, "m / s"))]),
+        M([("t", "alpha\xa0beta gamma delta " * 6), ("u", ["it's a\xa0b c"] * 8),
+           ("q", Q(5, "a\xa0b c"))]),
+        M([("t", "alpha\x1ebeta gamma\x1fdelta " * 6), ("u", ["one\x1ctwo three"] * 9)]),
+        M([("t", "x\ue000y z \ue001 " * 12)]),
     ]
 
 
